@@ -189,6 +189,7 @@ type e1Run struct {
 	encKeys    [][]byte
 	creators   map[int]int // slot -> creating node + 1
 	tainted    map[string]bool
+	leftOut    map[string]bool // "<slot>/<field>": encrypted field without a value at the create
 }
 
 func (e1Engine) Run(p *Plan) *Result {
@@ -755,8 +756,21 @@ func (r *e1Run) doCreate(step, node, slot int) {
 	}
 	lits, wants := r.initialValues(slot)
 	if r.encOn() {
-		for _, f := range userFields {
+		for fi, f := range userFields {
 			if r.isEncField(f.Name) && f.Name != "name" {
+				if newRng(r.p.Seed, uint64(5000+slot*37+fi)).IntN(100) < 40 {
+					// left out of the create: the field is then first written by an update
+					if f.Name == "tags" || f.Name == "ratio" || f.Name == "score" {
+						delete(lits, f.Name)
+						delete(wants, f.Name)
+						r.res.Stats["encrypted_fields_first_written_by_update"]++
+						if r.leftOut == nil {
+							r.leftOut = map[string]bool{}
+						}
+						r.leftOut[fmt.Sprintf("%d/%s", slot, f.Name)] = true
+						continue
+					}
+				}
 				if v, ok := r.secretValue(&f, "create"); ok {
 					lits[f.Name], wants[f.Name] = v.Lit, v.Want
 				}
@@ -899,7 +913,12 @@ func (r *e1Run) doUpdate(step, node, slot, fsel, vsel int) {
 			v = f.Pool[2+mod(vsel, 2)] // "a" or "b"
 		}
 		if r.encOn() && r.isEncField(f.Name) {
-			if sv, ok := r.secretValue(&f, "update"); ok {
+			when := "update"
+			if r.p.cfg("enc", 0) == 2 && r.leftOut[fmt.Sprintf("%d/%s", slot, f.Name)] {
+				// listed in encryptFields at the create but without a value there
+				when = "field-level-first-write"
+			}
+			if sv, ok := r.secretValue(&f, when); ok {
 				v = sv
 			}
 		}
